@@ -12,7 +12,12 @@ oracle:  well-typed fragment programs x ONE local edit from the property's list 
          unedited program must be accepted.  Failures must fall in a listed known class, decided
          by the model: the class's fix switch (and no smaller set) makes the model report an
          error inside the construct.  elif-unchecked and guard-unchecked are repaired in /repo: the
-         faithful model has those switches on, so a regression shows up as a failing input."""
+         faithful model has those switches on, so a regression shows up as a failing input.
+decl:    coq/C03/Decls.v + PropsDecls.v: model of the two declaration passes (collect.rs / check_decl.rs) and of
+         constructor calls, proved sound and exact against the documented adoption / constructor rules on [strict]
+         programs; tie = same (kind, span) set on generated declaration sets; direct oracle = this script's own
+         order-free reading of the rule on every adoption / extends / constructor call.  A miss on which model and
+         implementation agree lies (by the theorems) outside [strict]: it is attributed to the class flags that are off."""
 import copy
 import itertools
 import json
@@ -1368,6 +1373,934 @@ def mx_cases():
 
 
 # ----------------------------------------------------------------------------------------------
+# DECLARATION-level stream (coq/C03/Decls.v): trait declarations (required / default methods, @requires),
+# `with T1, T2` adoptions on models and classes, `extends` chains, constructor calls.
+#   tie:    Decls.dcheck (vm_compute) vs the real checker, same set of (diagnostic kind, span), on every case
+#   oracle: this script's own reading of the documented rule (py_conforms_*; order-free walk along `extends`)
+#           judges every adoption / constructor call / `extends` of every generated program
+# A declaration-level program is {"deps": [decl], "main": [decl]}; a decl is a dict (see DGen).
+
+SELF = ("self",)
+E1T = ("named", "E1")
+
+DK_TABLE = [("Unknown symbol", 0), ("inherits from itself", 1), ("has no field", 2), ("Type mismatch", 3),
+            ("requires field", 4), ("requires method", 5), ("to match its signature", 6), ("ositional", 7),
+            ("Duplicate constructor argument", 8), ("Cannot assign", 9), ("Missing required field", 10)]
+DKINDS = ["unknown", "cyclic", "nofield", "mismatch", "reqtype", "missingmethod", "signature", "positional", "duparg",
+          "fieldtype", "missingarg"]
+DARMS = ["adopt:undeclared", "adopt:non-trait", "adopt:trait", "model:symbol-table", "model:name-only-fallback",
+         "class:class_info-none", "inherit:parent-found", "inherit:parent-not-a-class-yet", "extends:unknown-base",
+         "extends:cyclic", "ctor:unknown-name", "ctor:not-constructible", "ctor:positional", "ctor:keyword-loop",
+         "resolve:typevar"]
+DFLAGS = ["wf_basic", "types_ordered", "extends_ordered", "kinds_ok", "bodies_ok"]
+FLAG_FINDING = {"types_ordered": "forward-type-unchecked", "extends_ordered": "forward-extends-ignored",
+                "kinds_ok": "adoption-kind-unchecked", "bodies_ok": "abstract-impl-accepted"}
+UNLOCATED = "extends-diagnostic-unlocated"
+
+
+def dmsg_kind(m):
+    for k, v in DK_TABLE:
+        if k in m:
+            return v
+    return 99
+
+
+def dnum(n):
+    """Coq number of a declaration name: ONE name space, like the real symbol table"""
+    if n == "Self":
+        return 0
+    base = {"T": 0, "M": 100, "C": 200, "E": 300, "f": 400, "X": 500}[n[0]]
+    return base + name_n(n)
+
+
+def dty_src(t):
+    k = t[0]
+    if k == "self":
+        return "Self"
+    if k == "opt":
+        return "Option[%s]" % dty_src(t[1])
+    if k == "res":
+        return "Result[%s, %s]" % (dty_src(t[1]), dty_src(t[2]))
+    return ty_src(t)
+
+
+def dty_coq(t):
+    k = t[0]
+    if k == "self":
+        return "(TNamed 0)"
+    if k == "named":
+        return "(TNamed %d)" % dnum(t[1])
+    if k == "opt":
+        return "(TOpt %s)" % dty_coq(t[1])
+    if k == "res":
+        return "(TRes %s %s)" % (dty_coq(t[1]), dty_coq(t[2]))
+    return ty_coq(t)
+
+
+def dval_src(t):
+    """a literal of type t (constructor arguments, field defaults)"""
+    k = t[0]
+    if k == "int":
+        return "1"
+    if k == "str":
+        return '"s"'
+    if k == "bool":
+        return "true"
+    if k == "named" and t[1].startswith("E"):
+        return "%s.K1" % t[1]
+    if k == "opt":
+        return "None"
+    if k == "res":
+        return "Ok(%s)" % dval_src(t[1])
+    raise ValueError(t)
+
+
+def meth_src(m, pre, abstract_ok=True):
+    ps = []
+    if m["recv"] == "self":
+        ps.append("self")
+    elif m["recv"] == "mut":
+        ps.append("mut self")
+    ps += ["p%d: %s" % (k + 1, dty_src(t)) for k, t in enumerate(m["params"])]
+    head = "    %s%sdef %s(%s) -> %s:" % (pre, "async " if m["async"] else "", m["name"], ", ".join(ps), dty_src(m["ret"]))
+    if not m["body"]:
+        return [head + " ..."]
+    r = m["ret"]
+    if r == UNIT:
+        body = "pass"
+    elif r[0] == "named" and not r[1].startswith("E"):
+        k = [i for i, t in enumerate(m["params"]) if t == r]
+        body = ("return p%d" % (k[0] + 1)) if k else "return M9(a1=1)"       # M9 is the data model of every generated program
+    else:
+        body = "return " + dval_src(r)
+    return [head, "        " + body]
+
+
+def decl_src(d, pub=False):
+    pre = "pub " if pub else ""
+    out = []
+    k = d["k"]
+    if k == "enum":
+        out += ["%senum %s:" % (pre, d["name"]), "    K1", "    K2"]
+    elif k == "trait":
+        if d["reqs"]:
+            out.append("@requires(%s)" % ", ".join("%s: %s" % (n, dty_src(t)) for n, t in d["reqs"]))
+        out.append("%strait %s:" % (pre, d["name"]))
+        if not d["meths"]:
+            out.append("    pass")
+        for j, m in enumerate(d["meths"]):
+            if j:
+                out.append("")
+            out += meth_src(m, "")
+    elif k in ("model", "class"):
+        head = "%s%s %s" % (pre, k, d["name"])
+        if d.get("ext"):
+            head += " extends " + d["ext"]
+        if d["ads"]:
+            head += " with " + ", ".join(a["t"] for a in d["ads"])
+        out.append(head + ":")
+        for f in d["fields"]:
+            out.append("    %s: %s%s" % (f["name"], dty_src(f["ty"]), (" = " + dval_src(f["ty"])) if f["default"] else ""))
+        for m in d["meths"]:
+            out.append("")
+            out += meth_src(m, "")
+    elif k == "fun":
+        out.append("%sdef %s() -> None:" % (pre, d["name"]))
+        for j, c in enumerate(d["calls"]):
+            args = ", ".join(("%s=%s" % (a["name"], dval_src(a["ty"])) if a["name"] else dval_src(a["ty"])) for a in c["args"])
+            out.append("    w%d = %s(%s)" % (j + 1, c["callee"], args))
+        out.append("    pass")
+    out.append("")
+    return out
+
+
+def dprog_src(decls, pub=False, header=""):
+    out = [header, ""] if header else []
+    for d in decls:
+        out += decl_src(d, pub)
+    return "\n".join(out) + "\n"
+
+
+def meth_coq(m):
+    rc = {"none": "RNone", "self": "RSelf", "mut": "RMut"}[m["recv"]]
+    return "(Build_meth %d %d (Build_msig %s %s [%s] %s) %s)" % (
+        m["i"], name_n(m["name"]), rc, "true" if m["async"] else "false", "; ".join(dty_coq(t) for t in m["params"]),
+        dty_coq(m["ret"]), "true" if m["body"] else "false")
+
+
+def decl_coq(d):
+    k = d["k"]
+    n = dnum(d["name"])
+    if k == "enum":
+        return "(DEnum %d %d)" % (d["i"], n)
+    ms = "[%s]" % "; ".join(meth_coq(m) for m in d.get("meths", []))
+    if k == "trait":
+        return "(DTrait %d %d [%s] %s)" % (d["i"], n, "; ".join("(Build_req %d %s)" % (name_n(a), dty_coq(t)) for a, t in d["reqs"]), ms)
+    if k in ("model", "class"):
+        ads = "[%s]" % "; ".join("(%d, %d)" % (a["i"], dnum(a["t"])) for a in d["ads"])
+        fs = "[%s]" % "; ".join("(Build_fld %d %d %d %s %s)" % (f["i"], f["ti"], name_n(f["name"]), dty_coq(f["ty"]), "true" if f["default"] else "false")
+                                for f in d["fields"])
+        if k == "model":
+            return "(DModel %d %d %s %s %s)" % (d["i"], n, ads, fs, ms)
+        return "(DClass %d %d %s %s %s %s)" % (d["i"], n, "(Some %d)" % dnum(d["ext"]) if d.get("ext") else "None", ads, fs, ms)
+    cs = "; ".join("(Build_call %d %d %d [%s])" % (c["i"], c["ci"], dnum(c["callee"]), "; ".join(
+        "(Build_arg %s %d %s)" % ("(Some %d)" % name_n(a["name"]) if a["name"] else "None", a["i"], dty_coq(a["ty"])) for a in c["args"])) for c in d["calls"])
+    return "(DFun %d %d [%s])" % (d["i"], n, cs)
+
+
+def dprog_coq(p):
+    return "(Build_dprogram [%s] [%s])" % ("; ".join(decl_coq(d) for d in p["deps"]), "; ".join(decl_coq(d) for d in p["main"]))
+
+
+def dzip(p, tree):
+    """id -> real byte span, from the span skeleton of the parsed main module; validates the rendering"""
+    sp = {0: (0, 0)}
+    nodes = [d for d in tree if d["k"] != "import"]
+    if len(nodes) != len(p["main"]):
+        raise ZipError("declaration count %d vs %d" % (len(nodes), len(p["main"])))
+    for d, r in zip(p["main"], nodes):
+        want = {"trait": "trait", "model": "model", "class": "class", "enum": "enum", "fun": "fn"}[d["k"]]
+        if r["k"] != want or r.get("n") != d["name"]:
+            raise ZipError("declaration %s %s vs %s %s" % (d["k"], d["name"], r["k"], r.get("n")))
+        sp[d["i"]] = (r["s"], r["e"])
+        ch = r["c"]
+        if d["k"] == "class" and r.get("x") != d.get("ext"):
+            raise ZipError("extends of %s: %s" % (d["name"], r.get("x")))
+        if d["k"] == "trait" and [tuple(x) for x in r.get("rq", [])] != [(a, dty_src(t)) for a, t in d["reqs"]]:
+            raise ZipError("@requires of %s: %s" % (d["name"], r.get("rq")))
+        if d["k"] in ("model", "class"):
+            ws = [c for c in ch if c["k"] == "with"]
+            fs = [c for c in ch if c["k"] == "fielddecl"]
+            if [c["n"] for c in ws] != [a["t"] for a in d["ads"]] or [c["n"] for c in fs] != [f["name"] for f in d["fields"]]:
+                raise ZipError("members of %s" % d["name"])
+            for a, c in zip(d["ads"], ws):
+                sp[a["i"]] = (c["s"], c["e"])
+            for f, c in zip(d["fields"], fs):
+                if c.get("ty") != dty_src(f["ty"]) or c.get("d") != f["default"]:
+                    raise ZipError("field %s of %s: %s" % (f["name"], d["name"], c.get("ty")))
+                sp[f["i"]] = (c["s"], c["e"])
+                sp[f["ti"]] = (c["c"][0]["s"], c["c"][0]["e"])
+        if d["k"] in ("model", "class", "trait"):
+            ms = [c for c in ch if c["k"] in ("method", "absmethod")]
+            if [(c["n"], c["k"] == "method") for c in ms] != [(m["name"], m["body"]) for m in d["meths"]]:
+                raise ZipError("methods of %s" % d["name"])
+            for m, c in zip(d["meths"], ms):
+                want = "%s|%s|%s|%s" % (m["recv"], "true" if m["async"] else "false", ",".join(dty_src(t) for t in m["params"]), dty_src(m["ret"]))
+                if c.get("sig") != want:
+                    raise ZipError("signature of %s.%s: %s" % (d["name"], m["name"], c.get("sig")))
+                sp[m["i"]] = (c["s"], c["e"])
+        if d["k"] == "fun":
+            st = [c for c in ch if c["k"] == "assign"]
+            if len(st) != len(d["calls"]):
+                raise ZipError("statements of %s" % d["name"])
+            for c, r2 in zip(d["calls"], st):
+                call = r2["c"][0]
+                if call["k"] != "call" or call["c"][0].get("n") != c["callee"] or len(call["c"]) - 1 != len(c["args"]):
+                    raise ZipError("call %s" % c["callee"])
+                sp[c["i"]] = (call["s"], call["e"])
+                sp[c["ci"]] = (call["c"][0]["s"], call["c"][0]["e"])
+                for a, ra in zip(c["args"], call["c"][1:]):
+                    if (ra["k"] == "named") != bool(a["name"]) or (a["name"] and ra.get("n") != a["name"]):
+                        raise ZipError("argument of %s" % c["callee"])
+                    sp[a["i"]] = (ra["s"], ra["e"])
+    return sp
+
+
+# ---- this script's reading of the documented rule (order-free; independent of Decls.v and of the checker)
+def py_decl(P, n, kinds):
+    ds = [d for d in P if d["name"] == n and d["k"] in kinds]
+    return ds[0] if ds else None
+
+
+def py_members(P, n, key, name_of):
+    """effective members of the model / class named n: own, then (classes) those of the `extends` chain that are
+    not redeclared nearer; None if n is not a model / class"""
+    d = py_decl(P, n, ("model", "class"))
+    if d is None:
+        return None
+    out = {}
+    seen = set()
+    while d is not None and d["name"] not in seen:
+        seen.add(d["name"])
+        for m in d[key]:
+            out.setdefault(name_of(m), m)
+        d = py_decl(P, d["ext"], ("class",)) if d["k"] == "class" and d.get("ext") else None
+    return out
+
+
+def sig_of(m):
+    return (m["recv"], m["async"], tuple(m["params"]), m["ret"])
+
+
+def py_conforms_adoption(P, d, tname):
+    t = py_decl(P, tname, ("trait",))
+    if t is None:
+        return False, "not a declared trait"
+    fs = py_members(P, d["name"], "fields", lambda f: f["name"])
+    ms = py_members(P, d["name"], "meths", lambda m: m["name"])
+    for a, ty in t["reqs"]:
+        if a not in fs:
+            return False, "required field %s missing" % a
+        if fs[a]["ty"] != ty:
+            return False, "required field %s has another type" % a
+    for m in t["meths"]:
+        if m["body"]:
+            continue
+        if m["name"] not in ms:
+            return False, "required method %s missing" % m["name"]
+        if sig_of(ms[m["name"]]) != sig_of(m):
+            return False, "required method %s has another signature" % m["name"]
+        if not ms[m["name"]]["body"]:
+            return False, "required method %s is not implemented (`...`)" % m["name"]
+    return True, ""
+
+
+def py_conforms_ctor(P, c):
+    fs = py_members(P, c["callee"], "fields", lambda f: f["name"])
+    if fs is None:
+        return False, "not a declared model / class"
+    names = []
+    for a in c["args"]:
+        if not a["name"]:
+            return False, "positional argument"
+        if a["name"] in names:
+            return False, "duplicate field %s" % a["name"]
+        names.append(a["name"])
+        if a["name"] not in fs:
+            return False, "unknown field %s" % a["name"]
+        if fs[a["name"]]["ty"] != a["ty"]:
+            return False, "field %s given a value of another type" % a["name"]
+    for n, f in fs.items():
+        if not f["default"] and n not in names:
+            return False, "missing field %s" % n
+    return True, ""
+
+
+def py_conforms_extends(P, d):
+    """`extends b`: b is a declared class and the chain from b does not come back to d"""
+    if not d.get("ext"):
+        return True, ""
+    cur = py_decl(P, d["ext"], ("class",))
+    if cur is None:
+        return False, "base %s is not a declared class" % d["ext"]
+    seen = set()
+    while cur is not None and cur["name"] not in seen:
+        if cur["name"] == d["name"]:
+            return False, "cyclic extends"
+        seen.add(cur["name"])
+        cur = py_decl(P, cur["ext"], ("class",)) if cur.get("ext") else None
+    return True, ""
+
+
+def py_cyclic(P):
+    for d in P:
+        if d["k"] == "class":
+            seen = set()
+            cur = d
+            while cur is not None and cur.get("ext"):
+                if cur["name"] in seen:
+                    return True
+                seen.add(cur["name"])
+                cur = py_decl(P, cur["ext"], ("class",))
+    return False
+
+
+# ---- generator ---------------------------------------------------------------------------------
+FIELD_POOL = {"a1": INT, "a2": STR, "a3": BOOL, "a4": E1T, "a5": INT, "a6": STR, "a7": ("opt", INT), "a8": ("res", INT, STR)}
+LITERAL_TYS = (INT, STR, BOOL, E1T)
+METH_POOL = ["m1", "m2", "m3", "m4", "m5", "m6"]
+
+
+class DGen:
+    """a conforming, strict base program: enum, data model, 1-3 traits, a chain of classes, models, functions with
+    constructor calls.  Field types and method signatures are global per NAME, so that names shared between traits
+    stay satisfiable together."""
+
+    def __init__(self, rng):
+        self.rng = rng
+        self.b = Builder(1)
+
+    def meth(self, name, body, sig=None):
+        s = sig or self.sigs[name]
+        return {"i": self.b.id(), "name": name, "recv": s[0], "async": s[1], "params": list(s[2]), "ret": s[3], "body": body}
+
+    def fld(self, name, default=None, ty=None):
+        t = ty or FIELD_POOL[name]
+        d = (t not in LITERAL_TYS) or (self.rng.random() < 0.25 if default is None else default)
+        return {"i": self.b.id(), "ti": self.b.id(), "name": name, "ty": t, "default": d}
+
+    def rand_sig(self):
+        r = self.rng
+        ptys = [INT, STR, BOOL, E1T, ("opt", INT), SELF, ("named", "M9"), ("res", INT, STR)]
+        params = tuple(r.choice(ptys) for _ in range(r.choice([0, 0, 1, 1, 2])))
+        rets = [INT, STR, BOOL, UNIT, ("opt", INT), ("opt", SELF), ("res", INT, STR)] + [p for p in params if p == ("named", "M9")]
+        return (r.choice(["self", "self", "self", "mut", "none"]), r.random() < 0.15, params, r.choice(rets))
+
+    def base(self):
+        r = self.rng
+        b = self.b
+        self.sigs = {m: self.rand_sig() for m in METH_POOL}
+        decls = [{"k": "enum", "i": b.id(), "name": "E1"},
+                 {"k": "model", "i": b.id(), "name": "M9", "ads": [], "fields": [self.fld("a1", False)], "meths": []}]
+        traits = []
+        for k in range(r.choice([1, 2, 2, 3])):
+            reqs = r.sample(sorted(FIELD_POOL), r.choice([0, 1, 2, 2, 4]))
+            names = r.sample(METH_POOL, r.choice([0, 1, 2, 2, 4, 5]))
+            nabs = r.randint(0, len(names)) if r.random() < 0.8 else len(names)
+            meths = [self.meth(m, j >= nabs) for j, m in enumerate(names)]
+            r.shuffle(meths)
+            t = {"k": "trait", "i": b.id(), "name": "T%d" % (k + 1), "reqs": [(a, FIELD_POOL[a]) for a in reqs], "meths": meths}
+            traits.append(t)
+            decls.append(t)
+        # classes: a chain C1 <- C2 <- C3 and possibly an independent C4
+        chain = ["C%d" % (k + 1) for k in range(r.choice([1, 2, 2, 3, 3]))]
+        classes = {}
+        for k, cn in enumerate(chain):
+            classes[cn] = {"k": "class", "i": b.id(), "name": cn, "ext": chain[k - 1] if k else None, "ads": [], "fields": [], "meths": []}
+        if r.random() < 0.4:
+            classes["C4"] = {"k": "class", "i": b.id(), "name": "C4", "ext": None, "ads": [], "fields": [], "meths": []}
+        models = {mn: {"k": "model", "i": b.id(), "name": mn, "ads": [], "fields": [], "meths": []} for mn in ["M1", "M2"][:r.choice([1, 2, 2])]}
+
+        def ancestors(cn):
+            out = [cn]
+            while classes[out[-1]]["ext"]:
+                out.append(classes[out[-1]]["ext"])
+            return out
+
+        def eff(cn, key):
+            names = set()
+            for a in ancestors(cn):
+                names |= set(x["name"] for x in classes[a][key])
+            return names
+
+        for cn, c in classes.items():
+            ads = [r.choice(traits) for _ in range(r.choice([0, 1, 1, 2, 2, 3]))]      # duplicates / diamonds happen
+            for t in ads:
+                c["ads"].append({"i": b.id(), "t": t["name"]})
+                for a, _ in t["reqs"]:
+                    if a not in eff(cn, "fields"):
+                        classes[r.choice(ancestors(cn))]["fields"].append(self.fld(a))
+                for m in t["meths"]:
+                    if not m["body"] and m["name"] not in eff(cn, "meths"):
+                        classes[r.choice(ancestors(cn))]["meths"].append(self.meth(m["name"], True))
+        for mn, m in models.items():
+            for t in [r.choice(traits) for _ in range(r.choice([0, 1, 1, 2, 2]))]:
+                m["ads"].append({"i": b.id(), "t": t["name"]})
+                for a, _ in t["reqs"]:
+                    if a not in [f["name"] for f in m["fields"]]:
+                        m["fields"].append(self.fld(a))
+                for tm in t["meths"]:
+                    if not tm["body"] and tm["name"] not in [x["name"] for x in m["meths"]]:
+                        m["meths"].append(self.meth(tm["name"], True))
+        # extra members, overrides of inherited members (same type / signature; a default may appear)
+        for cn, c in list(classes.items()) + list(models.items()):
+            own_f = [f["name"] for f in c["fields"]]
+            for a in r.sample(sorted(FIELD_POOL), r.choice([0, 1, 1, 2])):
+                if a not in own_f:
+                    c["fields"].append(self.fld(a))
+                    own_f.append(a)
+            own_m = [m["name"] for m in c["meths"]]
+            for m in r.sample(METH_POOL, r.choice([0, 0, 1, 2])):
+                if m not in own_m:
+                    c["meths"].append(self.meth(m, True))
+                    own_m.append(m)
+            if not c["fields"]:
+                c["fields"].append(self.fld("a5"))
+            r.shuffle(c["fields"])
+            r.shuffle(c["meths"])
+        decls += [classes[cn] for cn in chain] + ([classes["C4"]] if "C4" in classes else [])
+        decls += list(models.values())
+        # functions with constructor calls
+        P = decls
+        ctypes = [d for d in decls if d["k"] in ("model", "class")]
+        for k in range(2):
+            calls = []
+            for d in r.sample(ctypes, min(len(ctypes), r.choice([1, 2, 3]))):
+                fs = py_members(P, d["name"], "fields", lambda f: f["name"])
+                args = [{"name": n, "i": b.id(), "ty": f["ty"]} for n, f in fs.items()
+                        if not f["default"] or (f["ty"] in LITERAL_TYS and r.random() < 0.5)]
+                r.shuffle(args)
+                calls.append({"i": b.id(), "ci": b.id(), "callee": d["name"], "args": args})
+            decls.append({"k": "fun", "i": b.id(), "name": "fn%d" % (k + 1), "calls": calls})
+        return {"deps": [], "main": decls}
+
+
+def dfind(p, name):
+    for part in ("deps", "main"):
+        for d in p[part]:
+            if d["name"] == name:
+                return d
+    return None
+
+
+def other_ty(t, rng):
+    return rng.choice([x for x in (INT, STR, BOOL, ("opt", INT), ("opt", STR), ("res", INT, INT), E1T) if x != t])
+
+
+def decl_edits(p, rng):
+    """yield (edit name, edited program): ONE deviation each, at every position it can occur"""
+    P = p["main"]
+    b0 = 1 + max(x for x in _all_ids(p))
+    out = []
+
+    def cp():
+        return copy.deepcopy(p), Builder(b0)
+
+    def provider(q, dname, key, member):
+        """the declaration of the `extends` chain of dname that provides the member"""
+        d = dfind(q, dname)
+        seen = set()
+        while d is not None and d["name"] not in seen:
+            seen.add(d["name"])
+            for x in d[key]:
+                if x["name"] == member:
+                    return d, x
+            d = dfind(q, d["ext"]) if d["k"] == "class" and d.get("ext") else None
+        return None, None
+
+    for d in P:
+        if d["k"] in ("model", "class"):
+            for ai, a in enumerate(d["ads"]):
+                t = dfind(p, a["t"])
+                for ri, (fa, fty) in enumerate(t["reqs"]):
+                    q, b = cp()
+                    pd, f = provider(q, d["name"], "fields", fa)
+                    pd["fields"].remove(f)
+                    if not pd["fields"]:
+                        pd["fields"].append({"i": b.id(), "ti": b.id(), "name": "a9", "ty": INT, "default": True})
+                    out.append(("adopt-drop-required-field[%d/%d]" % (ri, len(t["reqs"])), q))
+                    q, b = cp()
+                    pd, f = provider(q, d["name"], "fields", fa)
+                    f["ty"] = other_ty(fty, rng)
+                    f["default"] = True
+                    out.append(("adopt-required-field-type[%d/%d]" % (ri, len(t["reqs"])), q))
+                absm = [m for m in t["meths"] if not m["body"]]
+                for mi, m in enumerate(absm):
+                    q, b = cp()
+                    pd, x = provider(q, d["name"], "meths", m["name"])
+                    pd["meths"].remove(x)
+                    out.append(("adopt-drop-required-method[%d/%d]" % (mi, len(absm)), q))
+                    for how in ("recv", "async", "param-count", "param-type", "ret"):
+                        q, b = cp()
+                        pd, x = provider(q, d["name"], "meths", m["name"])
+                        if how == "recv":
+                            x["recv"] = {"self": "mut", "mut": "self", "none": "self"}[x["recv"]]
+                        elif how == "async":
+                            x["async"] = not x["async"]
+                        elif how == "param-count":
+                            x["params"] = x["params"] + [INT] if rng.random() < 0.5 or not x["params"] else x["params"][:-1]
+                        elif how == "param-type":
+                            if not x["params"]:
+                                continue
+                            k = rng.randrange(len(x["params"]))
+                            x["params"][k] = other_ty(x["params"][k], rng)
+                        else:
+                            x["ret"] = other_ty(x["ret"], rng)
+                        out.append(("adopt-signature-%s[%d/%d]" % (how, mi, len(absm)), q))
+                    q, b = cp()
+                    pd, x = provider(q, d["name"], "meths", m["name"])
+                    x["body"] = False
+                    out.append(("adopt-abstract-impl[%d/%d]" % (mi, len(absm)), q))
+                for bad in ("X9", "M9", "E1", "fn1"):
+                    q, b = cp()
+                    dfind(q, d["name"])["ads"][ai]["t"] = bad
+                    out.append(("adopt-%s[%d/%d]" % ("undeclared-trait" if bad == "X9" else "non-trait-" + bad, ai, len(d["ads"])), q))
+                # the trait's declaration moved to the END of the module (declared after everything it mentions and
+                # after its adopters): conforming, must still be accepted
+                q, b = cp()
+                td = dfind(q, a["t"])
+                q["main"].remove(td)
+                q["main"].append(td)
+                out.append(("trait-declared-last", q))
+            if d["k"] == "class":
+                for bad in ("X9", "M9", "T1", d["name"]):
+                    q, b = cp()
+                    dfind(q, d["name"])["ext"] = bad
+                    out.append(("extends-%s" % ("undeclared" if bad == "X9" else "self" if bad == d["name"] else "non-class-" + bad), q))
+                if d.get("ext"):
+                    # the parent declared AFTER the child
+                    q, b = cp()
+                    pd = dfind(q, d["ext"])
+                    q["main"].remove(pd)
+                    q["main"].insert(q["main"].index(dfind(q, d["name"])) + 1, pd)
+                    out.append(("extends-forward", q))
+                    q, b = cp()
+                    root = dfind(q, "C1")
+                    root["ext"] = d["name"]
+                    out.append(("extends-cycle", q))
+        if d["k"] == "fun":
+            for cj, c in enumerate(d["calls"]):
+                n = len(c["args"])
+                tag = "[call %d, %d args]" % (cj, n)
+                for k in range(n):
+                    q, b = cp()
+                    dfind(q, d["name"])["calls"][cj]["args"].pop(k)
+                    out.append(("ctor-drop-arg@%d%s" % (k, tag), q))
+                    q, b = cp()
+                    args = dfind(q, d["name"])["calls"][cj]["args"]
+                    args.insert(rng.randint(0, n), {"name": args[k]["name"], "i": b.id(), "ty": args[k]["ty"]})
+                    out.append(("ctor-duplicate-arg@%d%s" % (k, tag), q))
+                    q, b = cp()
+                    args = dfind(q, d["name"])["calls"][cj]["args"]
+                    args[k]["ty"] = rng.choice([x for x in LITERAL_TYS if x != args[k]["ty"]])
+                    out.append(("ctor-wrong-type@%d%s" % (k, tag), q))
+                    q, b = cp()
+                    dfind(q, d["name"])["calls"][cj]["args"][k]["name"] = None
+                    out.append(("ctor-positional@%d%s" % (k, tag), q))
+                for k in range(n + 1):
+                    q, b = cp()
+                    dfind(q, d["name"])["calls"][cj]["args"].insert(k, {"name": "a9", "i": b.id(), "ty": INT})
+                    out.append(("ctor-unknown-field@%d%s" % (k, tag), q))
+                for bad in ("X9", "T1", "E1"):
+                    q, b = cp()
+                    dfind(q, d["name"])["calls"][cj]["callee"] = bad
+                    out.append(("ctor-callee-%s%s" % ("undeclared" if bad == "X9" else "not-constructible-" + bad, tag), q))
+    # forward type references: a model M8 declared LAST, mentioned by a trait's @requires / signature and by a field
+    for d in P:
+        if d["k"] == "trait" and (d["reqs"] or [m for m in d["meths"] if not m["body"]]):
+            q, b = cp()
+            q["main"].append({"k": "model", "i": b.id(), "name": "M8", "ads": [], "fields": [{"i": b.id(), "ti": b.id(), "name": "a1", "ty": INT, "default": False}], "meths": []})
+            t = dfind(q, d["name"])
+            if t["reqs"] and rng.random() < 0.6:
+                k = rng.randrange(len(t["reqs"]))
+                t["reqs"][k] = (t["reqs"][k][0], ("named", "M8"))
+                out.append(("fwdref-requires-type", q))
+            else:
+                ms = [m for m in t["meths"] if not m["body"]]
+                if ms:
+                    m = rng.choice(ms)
+                    m["ret"] = ("opt", ("named", "M8"))
+                    out.append(("fwdref-signature-type", q))
+    for d in P:
+        if d["k"] == "fun" and d["calls"]:
+            q, b = cp()
+            q["main"].append({"k": "model", "i": b.id(), "name": "M8", "ads": [], "fields": [{"i": b.id(), "ti": b.id(), "name": "a1", "ty": INT, "default": False}], "meths": []})
+            c = dfind(q, d["name"])["calls"][0]
+            td = dfind(q, c["callee"])
+            if c["args"]:
+                _, f = provider(q, c["callee"], "fields", c["args"][0]["name"])
+                f["ty"] = ("named", "M8")
+                f["default"] = False
+                out.append(("fwdref-field-type", q))
+            break
+    # ill-formed source (tie only): repeated declaration names / member names
+    for kind in ("trait", "model", "class"):
+        ds = [d for d in P if d["k"] == kind]
+        if ds:
+            q, b = cp()
+            d = copy.deepcopy(rng.choice(ds))
+            _renumber(d, b)
+            if d.get("meths"):
+                d["meths"] = d["meths"][:-1]
+            if d.get("fields") and len(d["fields"]) > 1:
+                d["fields"] = d["fields"][1:]
+            q["main"].insert(rng.randint(0, len(q["main"]) - 2), d)
+            out.append(("illformed-duplicate-%s-declaration" % kind, q))
+    ms = [d for d in P if d["k"] in ("model", "class") and d["ads"]]
+    if ms:
+        q, b = cp()
+        d = dfind(q, rng.choice(ms)["name"])
+        other = [x for x in P if x["k"] in ("trait", "enum") and x["name"] != d["name"]]
+        if d["k"] == "model":
+            q["main"].append({"k": "class", "i": b.id(), "name": d["name"], "ext": None, "ads": [], "fields": [{"i": b.id(), "ti": b.id(), "name": "a1", "ty": INT, "default": False}], "meths": []})
+        else:
+            q["main"].append({"k": "model", "i": b.id(), "name": d["name"], "ads": [], "fields": [{"i": b.id(), "ti": b.id(), "name": "a1", "ty": INT, "default": False}], "meths": []})
+        out.append(("illformed-%s-name-redeclared-as-other-kind" % d["k"], q))
+        q, b = cp()
+        d = dfind(q, rng.choice(ms)["name"])
+        if d["fields"]:
+            f = copy.deepcopy(d["fields"][0])
+            f["i"], f["ti"] = b.id(), b.id()
+            f["ty"] = other_ty(f["ty"], rng)
+            f["default"] = True
+            d["fields"].append(f)
+            out.append(("illformed-duplicate-field", q))
+        q, b = cp()
+        d = dfind(q, rng.choice(ms)["name"])
+        if d["meths"]:
+            m = copy.deepcopy(d["meths"][0])
+            m["i"] = b.id()
+            m["params"] = m["params"] + [INT]
+            d["meths"].append(m)
+            out.append(("illformed-duplicate-method", q))
+    return out
+
+
+def _all_ids(p):
+    acc = []
+
+    def visit(o):
+        if isinstance(o, dict):
+            for k in ("i", "ti", "ci"):
+                if isinstance(o.get(k), int):
+                    acc.append(o[k])
+            for v in o.values():
+                visit(v)
+        elif isinstance(o, (list, tuple)):
+            for v in o:
+                visit(v)
+    visit(p)
+    return acc
+
+
+def _renumber(o, b):
+    if isinstance(o, dict):
+        for k in ("i", "ti", "ci"):
+            if isinstance(o.get(k), int):
+                o[k] = b.id()
+        for v in o.values():
+            _renumber(v, b)
+    elif isinstance(o, list):
+        for v in o:
+            _renumber(v, b)
+
+
+def split_deps(p, rng):
+    """the leading declarations (enum, data model, traits, possibly base classes) moved into a dependency module"""
+    main = p["main"]
+    k = 2
+    while k < len(main) and main[k]["k"] == "trait":
+        k += 1
+    if main[k]["k"] == "class" and rng.random() < 0.5:
+        k += 1
+    k = rng.randint(2, k)
+    q = copy.deepcopy(p)
+    q["deps"], q["main"] = q["main"][:k], q["main"][k:]
+    return q
+
+
+def _f(i, ti, name, ty, default=False):
+    return {"i": i, "ti": ti, "name": name, "ty": ty, "default": default}
+
+
+def _m(i, name, body):
+    return {"i": i, "name": name, "recv": "self", "async": False, "params": [], "ret": INT, "body": body}
+
+
+def decl_witnesses():
+    """(Coq constant of ProofsDecls.v, finding id, the same program as a python tree, expectation on the real checker)"""
+    M = lambda i, n, ads, fs, ms: {"k": "model", "i": i, "name": n, "ads": ads, "fields": fs, "meths": ms}
+    C = lambda i, n, ext, ads, fs, ms: {"k": "class", "i": i, "name": n, "ext": ext, "ads": ads, "fields": fs, "meths": ms}
+    call = lambda i, ci, callee, args: {"i": i, "ci": ci, "callee": callee, "args": [{"name": a, "i": k, "ty": t} for a, k, t in args]}
+    fwdext = lambda c: [C(1, "C3", "C4", [], [_f(2, 3, "a2", INT)], []), C(4, "C4", None, [], [_f(5, 6, "a1", INT)], []),
+                        {"k": "fun", "i": 7, "name": "fn1", "calls": [c]}]
+    return [
+        ("w_fwdref", "forward-type-unchecked", "accepted",
+         [{"k": "trait", "i": 1, "name": "T1", "reqs": [("a1", ("named", "M2"))], "meths": []},
+          M(2, "M2", [], [_f(3, 4, "a2", INT)], []), C(5, "C3", None, [{"i": 6, "t": "T1"}], [_f(7, 8, "a1", INT)], [])]),
+        ("w_fwdfield", "forward-type-unchecked", "accepted",
+         [M(1, "M1", [], [_f(2, 3, "a1", ("named", "M2"))], []), M(4, "M2", [], [_f(5, 6, "a2", INT)], []),
+          {"k": "fun", "i": 7, "name": "fn1", "calls": [call(8, 9, "M1", [("a1", 10, INT)])]}]),
+        ("(w_fwdext_decls c_fwdext_missing)", "forward-extends-ignored", "accepted", fwdext(call(8, 9, "C3", [("a2", 10, INT)]))),
+        ("(w_fwdext_decls c_fwdext_full)", "forward-extends-ignored", "rejected", fwdext(call(8, 9, "C3", [("a1", 11, INT), ("a2", 10, INT)]))),
+        ("w_kind", "adoption-kind-unchecked", "accepted",
+         [M(1, "M2", [], [_f(2, 3, "a1", INT)], []), M(4, "M1", [{"i": 5, "t": "M2"}], [_f(6, 7, "a1", INT)], [])]),
+        ("w_abstract", "abstract-impl-accepted", "accepted",
+         [{"k": "trait", "i": 1, "name": "T1", "reqs": [], "meths": [_m(2, "m1", False)]},
+          C(3, "C1", None, [{"i": 4, "t": "T1"}], [_f(5, 6, "a1", INT)], [_m(7, "m1", False)])]),
+        ("w_unlocated", UNLOCATED, "unlocated", [C(1, "C2", "X9", [], [_f(2, 3, "a1", INT)], [])]),
+    ]
+
+
+DREQ = "From Coq Require Import ZArith List.\nFrom Verif Require Import C03.Ast C03.Checker C03.Decls.\nImport ListNotations.\nOpen Scope N_scope."
+# the witnesses of ProofsDecls.v are evaluated in a file of their own: with ProofsDecls imported, coqc elaborates the
+# (large) generated program terms about four times slower
+DREQW = DREQ.replace("C03.Decls.", "C03.Decls C03.ProofsDecls.")
+
+
+def decl_stream(chk, binary, known, model_ok, corr_bad, fails, dist, classes):
+    rng = chk.rng
+    quick = chk.tier == "quick"
+    n_base = 7 if quick else 60
+    per_edit = 2 if quick else 14
+    cases = []
+    quota = {}
+    wits = decl_witnesses()
+    for wname, fid, expect, decls in wits:
+        cases.append({"name": wname, "edit": "witness:" + fid, "prog": {"deps": [], "main": decls}, "coq": wname, "expect": expect})
+    for k in range(n_base):
+        p = DGen(rng).base()
+        cases.append({"name": "d%d" % k, "edit": "unedited", "prog": p})
+        cases.append({"name": "d%d" % k, "edit": "unedited+deps", "prog": split_deps(p, rng)})
+        eds = decl_edits(p, rng)
+        rng.shuffle(eds)
+        for name, q in eds:
+            key = name.split("[")[0].split("@")[0]
+            pos = name
+            if quota.get(pos, 0) >= per_edit or quota.get(("k", key), 0) >= per_edit * 6:
+                continue
+            quota[pos] = quota.get(pos, 0) + 1
+            quota[("k", key)] = quota.get(("k", key), 0) + 1
+            cases.append({"name": "d%d" % k, "edit": name, "prog": q})
+            if rng.random() < 0.12 and not name.startswith(("illformed", "trait-declared-last", "fwdref", "extends-forward")):
+                cases.append({"name": "d%d" % k, "edit": name + "+deps", "prog": split_deps(q, rng)})
+    inputs = []
+    for c in cases:
+        p = c["prog"]
+        hdr = ("from dep import %s" % ", ".join(d["name"] for d in p["deps"])) if p["deps"] else ""
+        c["src"] = dprog_src(p["main"], header=hdr)
+        c["input"] = {"main": c["src"], "deps": [["dep", dprog_src(p["deps"], pub=True)]] if p["deps"] else []}
+        inputs.append(c["input"])
+    real = run_real(binary, inputs)
+    live = []
+    for c, r in zip(cases, real):
+        if r["parse"] != "ok":
+            corr_bad.append({"case": c["name"], "kind": c["edit"], "why": "generated declaration-level source does not parse: %s %s" % (r["parse"], r.get("errors") or r.get("message")), "source": c["src"], "input": c["input"]})
+            continue
+        try:
+            c["sp"] = dzip(c["prog"], r["tree"])
+        except (ZipError, KeyError, IndexError) as ex:
+            corr_bad.append({"case": c["name"], "kind": c["edit"], "why": "parsed declarations differ from the generated ones: %s" % ex, "source": c["src"]})
+            continue
+        c["real_raw"] = r["errors"]
+        c["real"] = set((dmsg_kind(e[3]), (e[0], e[1])) for e in r["errors"])
+        live.append(c)
+    if model_ok:
+        wl = [c for c in live if c.get("coq")]
+        ev = vlib.coq_eval(DREQ, "dprogram", "run_decls", [dprog_coq(c["prog"]) for c in live], shard=24, tag="c03d")
+        evw = vlib.coq_eval(DREQW, "dprogram", "run_decls", [c["coq"] for c in wl], shard=40, tag="c03w") if wl else []
+        for c, e in zip(wl, evw):
+            if e != ev[live.index(c)]:
+                corr_bad.append({"case": c["name"], "kind": c["edit"], "why": "the witness of ProofsDecls.v and its rendering in the check differ", "source": c["src"]})
+        for c, e in zip(live, ev):
+            c["m_ev"] = set((int(k), int(i)) for k, i in e[0])
+            c["flags"] = dict(zip(DFLAGS, e[1][0]))
+            c["arms"] = [int(a) for a in e[1][1]]
+    arm_hits = {a: 0 for a in DARMS}
+    kind_hits = {k: 0 for k in DKINDS}
+    pending, pending_samples = {}, []
+    stats = {"cases": len(live), "constructs_judged": 0, "violating_constructs": 0, "violations_detected": 0, "missed_known": 0,
+             "conforming_programs_accepted": 0, "model_cases": len(live) if model_ok else 0}
+    for c in live:
+        key = "decl %s" % c["edit"].split("[")[0].split("@")[0]
+        dist[key] = dist.get(key, 0) + 1
+        chk.count_case(("decl", c["name"], c["edit"]), nontrivial=not c["edit"].startswith("unedited"))
+        p = c["prog"]
+        P = p["deps"] + p["main"]
+        sp = c["sp"]
+        if model_ok:
+            for a in c["arms"]:
+                arm_hits[DARMS[a]] += 1
+            for k, _ in c["m_ev"]:
+                kind_hits[DKINDS[k]] += 1
+            m = set((k, sp.get(i)) for k, i in c["m_ev"])
+            c["tie"] = m == c["real"]
+            if not c["tie"]:
+                corr_bad.append({"case": c["name"], "kind": c["edit"], "why": "declaration-level model and implementation report different diagnostics",
+                                 "model": sorted(map(str, m)), "impl": sorted(map(str, c["real"])), "source": c["src"], "input": c["input"]})
+        if c.get("expect"):
+            got = "accepted" if not c["real"] else ("unlocated" if all(e[1] == (0, 0) for e in c["real"]) else "rejected")
+            if got != c["expect"]:
+                fails.append({"case": c["name"], "edit": c["edit"], "construct": "witness of PropsDecls.v", "impl_errors": c["real_raw"], "source": c["src"], "input": c["input"],
+                              "why": "the refutation witness no longer behaves as proved for the model: expected %s, the real checker says %s" % (c["expect"], got),
+                              "class": "NONE"})
+        names = [d["name"] for d in P]
+        if len(set(names)) != len(names) or c["edit"].startswith("illformed"):
+            continue           # ill-formed source: the tie above is all that is checked
+        # ---- direct oracle, construct by construct
+        misses = []
+        all_ok = True
+        cyclic = py_cyclic(P)       # members along a cyclic `extends` are not defined: only the `extends` themselves are judged
+        for d in p["main"]:
+            dspan = sp[d["i"]]
+            if d["k"] in ("model", "class"):
+                own_types = [sp[f["ti"]] for f in d["fields"]] if d["k"] == "model" else []
+                for a in ([] if cyclic else d["ads"]):
+                    okc, why = py_conforms_adoption(P, d, a["t"])
+                    stats["constructs_judged"] += 1
+                    at = [e for e in c["real"] if e[1] == sp[a["i"]]]
+                    if okc:
+                        if at:
+                            misses.append(("false-rejection", "conforming adoption `with %s` of %s rejected" % (a["t"], d["name"]), None))
+                    else:
+                        all_ok = False
+                        stats["violating_constructs"] += 1
+                        if at or [e for e in c["real"] if e[1] in own_types and e[0] == 3]:
+                            stats["violations_detected"] += 1
+                        else:
+                            misses.append(("accepted", "%s `with %s`: %s" % (d["name"], a["t"], why), None))
+            if d["k"] == "class":
+                okc, why = py_conforms_extends(P, d)
+                stats["constructs_judged"] += 1
+                if not okc:
+                    all_ok = False
+                    stats["violating_constructs"] += 1
+                    if [e for e in c["real"] if e[0] in (0, 1) and inside(e[1], dspan) and e[1] != (0, 0)]:
+                        stats["violations_detected"] += 1
+                    elif [e for e in c["real"] if e[0] in (0, 1) and e[1] == (0, 0)]:
+                        misses.append(("unlocated", "class %s: %s: reported at 0..0, not inside the declaration" % (d["name"], why), None))
+                    else:
+                        misses.append(("accepted", "class %s: %s" % (d["name"], why), None))
+            if d["k"] == "fun":
+                for cl in ([] if cyclic else d["calls"]):
+                    okc, why = py_conforms_ctor(P, cl)
+                    if not okc and py_decl(P, cl["callee"], ("trait", "enum", "fun")):
+                        continue      # an ordinary call of a function / a non-constructible name: not a constructor call
+                    stats["constructs_judged"] += 1
+                    at = [e for e in c["real"] if inside(e[1], sp[cl["i"]])]
+                    if okc:
+                        if at:
+                            misses.append(("false-rejection", "conforming constructor call %s(...) rejected" % cl["callee"], None))
+                    else:
+                        all_ok = False
+                        stats["violating_constructs"] += 1
+                        if at:
+                            stats["violations_detected"] += 1
+                        else:
+                            misses.append(("accepted", "%s(...): %s" % (cl["callee"], why), None))
+        if cyclic:
+            all_ok = False
+        if all_ok and not misses:
+            if c["real"]:
+                misses.append(("false-rejection", "program in which every adoption / extends / constructor call conforms is rejected", None))
+            else:
+                stats["conforming_programs_accepted"] += 1
+        for what, why, _ in misses:
+            entry = {"case": c["name"], "edit": c["edit"], "construct": why, "impl_errors": c["real_raw"], "source": c["src"], "input": c["input"],
+                     "why": {"accepted": "declaration-level rule violated, no diagnostic at the offending construct",
+                             "unlocated": "declaration-level rule violated, the diagnostic is not located inside the offending construct",
+                             "false-rejection": "conforming declaration-level construct rejected"}[what]}
+            if not model_ok:
+                entry["class"] = "undecided (model does not build)"
+                fails.append(entry)
+                continue
+            if not c["tie"]:
+                entry["class"] = "NONE: the faithful model of the checker disagrees with the implementation on this program"
+                fails.append(entry)
+                continue
+            # the model agrees with the implementation.  By C03_adoption_sound / C03_ctor_sound / C03_conforming_accepted a
+            # [strict] program cannot end up here, so some class flag is off: the finding(s) of the flags that are off
+            if what == "unlocated":
+                fids = [UNLOCATED]
+            else:
+                off = [f for f in DFLAGS if not c["flags"][f]]
+                fids = [FLAG_FINDING[f] for f in off if f in FLAG_FINDING]
+                if not fids or "wf_basic" in off:
+                    entry["class"] = "NONE: the program is strict (%s), the theorems say the model rejects / accepts it" % c["flags"]
+                    fails.append(entry)
+                    continue
+            for f in fids:
+                classes[f] = classes.get(f, 0) + 1
+            unlisted = [f for f in fids if f not in known]
+            if unlisted:
+                # the five declaration-level classes are fully characterised (class predicate in Decls.v, machine-checked
+                # witness in PropsDecls.v replayed above, model == implementation on this very case): until the lead has
+                # merged build/kf-C03-new.json into known_findings.json they are recorded as PENDING, not as a VIOLATION
+                # (merged in round 4: the five classes are listed in known_findings.json; a class that is NOT listed is a violation)
+                entry["class"] = "UNLISTED: " + "+".join(unlisted)
+                fails.append(entry)
+                continue
+            stats["missed_known"] += 1
+    stats["pending_findings_not_yet_listed"] = pending
+    stats["pending_samples"] = pending_samples
+    chk.coverage["declaration_stream"] = dict(stats, model_arm_hits=arm_hits, model_event_kinds=kind_hits)
+    if model_ok:
+        chk.coverage["traces_validated_against_impl_decl"] = len(live)
+    for c in [x for x in live if not x["edit"].startswith("unedited")][:3]:
+        chk.sample({"edit": c["edit"], "context": "declaration level", "source": c["src"][-500:]})
+
+
+# ----------------------------------------------------------------------------------------------
 # fixed corpus: the refutation witnesses of Props.v rendered as Incan, and extra observations
 
 def corpus_programs():
@@ -1442,21 +2375,27 @@ def run(chk):
         "C03/Static.v as the reading of the documentation (RFC 000 §1.1-1.4/§4, explanation/scopes_and_name_resolution.md, enums.md, error_handling.md, book ch.10)",
         "vharness c03 adapter (real lexer+parser+TypeChecker::check_with_imports) and this script's renderer/zipper/differ",
         "abstract span ids: 'inside the construct' = id of a sub-node; real byte spans are checked to nest the same way on every generated program",
+        "hand-written C03/Decls.v as the model of collect.rs (collect_trait/_model/_class, inherit_from_parent, resolve_type), check_decl.rs (check_model/check_class/check_trait_conformance(_model)/extends_chain_reaches) and calls.rs (check_model_or_class_constructor_call), tied by the declaration-level correspondence stream; its conforms_* predicates as the reading of RFC 000 1.5/4.4, reference/derives_and_traits.md (@requires), book ch.10/11",
     ]
     chk.assumptions = [
         "theorems speak about the MiniIncan fragment of C03/Ast.v; programs outside it (classes, methods, closures, comprehensions, lists, floats, f-strings, tuple forms) are only exercised by the real checker's own tests",
         "Determined: no binding/match/field access on a value whose inferred type contains Unknown (x = None without annotation, ...): the checker's Unknown-is-compatible-with-everything rule makes such programs escape; they are excluded, not proved",
         "same-scope re-declaration (`let x`/`mut x`/annotated assignment of a name already bound in the same scope) is treated by the checker as a plain reassignment; excluded from the fragment (KGhost)",
-        "trait adoption (required methods, @requires fields) is checked on the real checker by the oracle only; it is not part of the Coq fragment (partial)",
+        "declaration level (C03/Decls.v, PropsDecls.v): trait declarations (required / default methods, @requires), `with` adoptions on models and classes, `extends` chains, constructor calls with literal arguments; method BODIES, field default expressions, generics, @derive and duplicate @requires entries are not in that model (bodies of the generated declarations are trivial; a body diagnostic would show up as a tie mismatch)",
+        "strict (boolean, PropsDecls.v): unique declaration and member names and ground written types (the checker does not report repeated members; not in the property's list), and the complement of the four known classes Known_C03_fwdref / _fwdext / _kind / _abstract; ill-formed programs are covered by the tie only",
         "function bodies are not required to return on every path (the checker does not check it; not in the property's list)",
     ]
     known = load_findings(chk)
-    res = chk.proof_stage("C03", allow_axioms=())
+    res = chk.proof_stage("C03", allow_axioms=(), extra_props=[("PropsDecls", ())])
     binary = vlib.build_harness("debug")
     model_ok = vlib.coq_build(["C03/Model.vo"])[0]
     if not model_ok:
         res["tie_ok"] = False
         res["broken"].append({"what": "model", "message": "C03/Model.v does not build"})
+    decl_model_ok = vlib.coq_build(["C03/ProofsDecls.vo"])[0]
+    if not decl_model_ok:
+        res["tie_ok"] = False
+        res["broken"].append({"what": "model", "message": "C03/Decls.v / ProofsDecls.v (declaration-level model and its witnesses) do not build"})
 
     rng = chk.rng
     n_prog = 18 if chk.tier == "quick" else 150
@@ -1643,6 +2582,9 @@ def run(chk):
         if not any(inside((e[0], e[1]), (decl["s"], decl["e"])) for e in r["errors"]):
             fails.append({"case": name, "edit": name, "why": "trait adoption violation accepted / not located in the adopting model", "errors": r["errors"], "source": src})
 
+    # ---- declaration level: Decls.v model vs the real checker, and the direct oracle on every adoption / extends / constructor call
+    decl_stream(chk, binary, known, decl_model_ok, corr_bad, fails, dist, classes)
+
     # ---- checker-state families (real checker only)
     scs = state_cases()
     sreal = run_real(binary, [{"main": src, "deps": []} for _, src, _, _ in scs])
@@ -1718,7 +2660,11 @@ def run(chk):
         if not isinstance(w, dict) or "main" not in w:
             continue
         r = run_real(binary, [{"main": w["main"], "deps": w.get("deps", [])}])[0]
-        if r["parse"] == "ok" and not r["errors"]:
+        if w.get("expect") == "unlocated":
+            # the defect is the LOCATION: the witness is rejected, with every diagnostic at Span::default()
+            if r["parse"] == "ok" and r["errors"] and all((e[0], e[1]) == (0, 0) for e in r["errors"]):
+                chk.known(fid, "%s: %s" % (fid, f["summary"]))
+        elif r["parse"] == "ok" and not r["errors"]:
             chk.known(fid, "%s: %s" % (fid, f["summary"]))
 
     # repaired findings: their witnesses must now be rejected
